@@ -2,37 +2,54 @@
 
 Decided:
   R20.a  every global name loaded in clastic/flaw.py resolves (symtable) -- also the functions of
-         server.py that build the failsafe (serve_error_app, restart_with_reloader; loads dominated by
-         ``os.name == 'nt'`` are exempt: Windows-only);
-  R20.b  parsing can never prevent the page: the _ParsedTB.from_string / to_dict calls in create_app sit
-         under a catch-all handler that substitutes a constant; get_flaw_info's splitlines()[-1] likewise;
-         both page routes ('/' and the catch-all '/<_ignored*>') use the same endpoint and template; the
-         resource names given to Application are exactly the endpoint's parameters (so the bind-time check
-         of C01 holds for the failsafe itself); the template name rendered is the one registered;
-  R20.c  every reference of _FLAW_TEMPLATE is HTML-escaped under ashes' filter semantics (no |s, no esc
-         pragma), and nothing in clastic switches autoescaping off;
+         server.py that build the failsafe (serve_error_app, restart_with_reloader; loads dominated by a
+         Windows-only test such as ``os.name == 'nt'`` are exempt);
+  R20.b  parsing can never prevent the page: every call of the traceback parser that create_app makes (directly or
+         through a function of the module) sits under a catch-all handler that completes normally with a harmless
+         value, and the value put into the resources is bound on every path; the endpoint's own risky expressions
+         (``tb_str.splitlines()[-1]``) likewise; both page routes ('/' and the catch-all '/<..*>') use the same
+         endpoint and template; the resource names given to Application are exactly the endpoint's parameters (so
+         the bind-time check of C01 holds for the failsafe itself); the template name rendered is the one
+         registered; the static asset application is non-breaking and the catch-all is the last route; nothing
+         removes entries from the caller's monitored-file list;
+  R20.c  every reference of the registered template is HTML-escaped under ashes' filter semantics (no |s, no esc
+         pragma), and nothing in clastic switches autoescaping off; the endpoint supplies what the template reads
+         and the text / file list shown are the ones create_app was given;
   R20.d  the parsed branch is reachable: from_string has a normal return path that does not depend on an
-         unbound name (follows from R20.a) and to_dict exports the keys the template's {#parsed_err} block reads.
+         unbound name (follows from R20.a), constructs cls(<type>, <message>, ...) from the two sides of the
+         ``partition(':')`` of the exception line, the scan accepts module-qualified exception names, and to_dict
+         exports the keys the template's {#parsed_err} block reads.
 Declined: "answers 200 for every text" over non-text inputs; traceback grammar coverage.
+
+The constructs are located by role: the Application(...) call create_app returns, its routes / resources /
+render_factory arguments followed through single-assignment locals, module-level constants and straight-line list
+building; the endpoint is whatever function the page routes name; the template is whatever source is registered.
 """
 import ast
 
 from ..core import AnalysisError, norm, short
 from .. import dust
-from .common import (cfg_of, fkey, conds, has_cond, check_unbound, platform_gated, protected_by, stmts_of,
-                     walk_body, call_tail, call_name, returns_of, kwarg)
+from .. import layers
+from ..astutil import assigned_value, argn, root_name, handler_catches
+from ..cfg import enclosing_tries, expr_may_raise
+from .common import (cfg_of, fkey, conds, check_unbound, stmts_of, stmt_of, walk_body, call_tail, call_name, returns_of)
 
 FLAW = 'clastic.flaw'
+PARSER_CLASS = '_ParsedTB'
+PARSER_METHODS = ('from_string', 'to_dict')
 
 
+# ------------------------------------------------------------------------------------------------ shared with C09 / C18
 def autoescape_writes(repo):
-    """Any store to an ``autoescape_filter`` attribute / keyword anywhere in clastic."""
+    """Any store to an ``autoescape_filter`` attribute / keyword anywhere in clastic (a keyword that spells the
+    default, ``autoescape_filter='h'``, switches nothing off)."""
     out = []
     for m in repo.all_internal_modules():
         for n in ast.walk(m.tree):
             if isinstance(n, ast.Attribute) and n.attr == 'autoescape_filter' and isinstance(n.ctx, ast.Store):
                 out.append((m, n))
-            if isinstance(n, ast.keyword) and n.arg == 'autoescape_filter':
+            if isinstance(n, ast.keyword) and n.arg == 'autoescape_filter' and \
+                    not (isinstance(n.value, ast.Constant) and n.value.value == 'h'):
                 out.append((m, n.value))
             if isinstance(n, ast.Call) and call_tail(n) == 'setattr' and len(n.args) >= 2 and \
                     isinstance(n.args[1], ast.Constant) and n.args[1].value == 'autoescape_filter':
@@ -60,198 +77,971 @@ def check_template_escaping(rep, rule, repo, mod, name, text, allow=(), node=Non
     return tags
 
 
-def run(rep):
-    repo = rep.repo
-    flaw = repo.mod(FLAW)
-    server = repo.mod('clastic.server')
-    rep.decide('R20.a names resolve; R20.b parser cannot prevent the page, route/template/resource agreement; '
-               'R20.c template auto-escapes every reference; R20.d parsed branch reachable and fed')
-    rep.decline('totality over non-text inputs (bytes/None through ashes); coverage of traceback grammars')
-    rep.assume('ashes 19.2.0 filter semantics as read from the pinned source (apply_filters)')
+# ------------------------------------------------------------------------------------------------ following locals
+def _all_params(fi):
+    a = fi.node.args
+    out = set(fi.params())
+    if a.vararg:
+        out.add(a.vararg.arg)
+    if a.kwarg:
+        out.add(a.kwarg.arg)
+    return out
 
-    # ---- R20.a -----------------------------------------------------------
+
+def _single_value(fi, name):
+    """Value of a local that is bound exactly once, by a plain assignment (never a parameter): else None."""
+    if name in _all_params(fi):
+        return None
+    b = assigned_value(fi.node, name)
+    if len(b) == 1 and b[0][2] is None and isinstance(b[0][0], (ast.Assign, ast.AnnAssign)):
+        return b[0][1]
+    return None
+
+
+def _deref(fi, expr, limit=8):
+    """Follow ``name`` -> the expression it was (once) assigned, repeatedly."""
+    while isinstance(expr, ast.Name) and limit > 0:
+        v = _single_value(fi, expr.id)
+        if v is None:
+            break
+        expr, limit = v, limit - 1
+    return expr
+
+
+def _canon_name(fi, expr):
+    """Root local name of ``expr`` with pure aliases (``a = b``) followed."""
+    name = root_name(expr)
+    seen = set()
+    while name is not None and name not in seen:
+        seen.add(name)
+        v = _single_value(fi, name)
+        if isinstance(v, ast.Name):
+            name = v.id
+        else:
+            break
+    return name
+
+
+_UNFOLDED = object()
+
+
+def _fold(repo, fi, expr):
+    """Constant value of an expression (locals bound once and module-level constants followed) or _UNFOLDED."""
+    return repo.try_fold(_deref(fi, expr), fi.mod, _UNFOLDED)
+
+
+def _straight_line(fi, st):
+    """The statement runs exactly once per activation, unconditionally (apart from exceptions): its ancestors up to
+    the function are only try bodies / else clauses and with blocks."""
+    cur = st
+    while True:
+        par = fi.mod.parents.get(cur)
+        if par is None:
+            return False
+        if par is fi.node:
+            return True
+        if isinstance(par, ast.Try):
+            if cur not in par.body and cur not in par.orelse:
+                return False
+        elif not isinstance(par, (ast.With,)):
+            return False
+        cur = par
+
+
+def _seq_elements(fi, expr, what, depth=0):
+    """Element expressions of a list / tuple valued expression that is a literal or is built in straight-line code
+    (literal, concatenation, ``x = [..]`` followed by append / extend / insert / ``+=``)."""
+    if depth > 5:
+        raise AnalysisError('%s: construction too deep to follow' % what)
+    if isinstance(expr, (ast.List, ast.Tuple)):
+        if any(isinstance(e, ast.Starred) for e in expr.elts):
+            raise AnalysisError('%s: starred element in %s' % (what, short(expr)))
+        return list(expr.elts)
+    if isinstance(expr, ast.BinOp) and isinstance(expr.op, ast.Add):
+        return _seq_elements(fi, expr.left, what, depth + 1) + _seq_elements(fi, expr.right, what, depth + 1)
+    if isinstance(expr, ast.Call) and call_name(expr) in ('list', 'tuple') and len(expr.args) == 1 and not expr.keywords:
+        return _seq_elements(fi, expr.args[0], what, depth + 1)
+    if isinstance(expr, ast.Name):
+        name = expr.id
+        if name in _all_params(fi):
+            raise AnalysisError('%s: %s is a parameter' % (what, name))
+        binds = assigned_value(fi.node, name)
+        plain = [b for b in binds if isinstance(b[0], (ast.Assign, ast.AnnAssign)) and b[2] is None]
+        augs = [b for b in binds if isinstance(b[0], ast.AugAssign)]
+        if len(plain) != 1 or len(plain) + len(augs) != len(binds):
+            raise AnalysisError('%s: local %s is not built by one assignment' % (what, name))
+        elts = None
+        for st in stmts_of(fi.node):
+            if st is plain[0][0]:
+                if not _straight_line(fi, st):
+                    raise AnalysisError('%s: %s is assigned conditionally' % (what, name))
+                elts = _seq_elements(fi, plain[0][1], what, depth + 1)
+                continue
+            touched = None
+            if isinstance(st, ast.AugAssign) and isinstance(st.target, ast.Name) and st.target.id == name:
+                if not isinstance(st.op, ast.Add):
+                    raise AnalysisError('%s: %s' % (what, short(st)))
+                touched = ('extend', [st.value])
+            elif isinstance(st, ast.Expr) and isinstance(st.value, ast.Call) and isinstance(st.value.func, ast.Attribute) \
+                    and isinstance(st.value.func.value, ast.Name) and st.value.func.value.id == name:
+                touched = (st.value.func.attr, st.value.args)
+            elif isinstance(st, (ast.Assign, ast.Delete)):
+                tg = st.targets
+                if any(isinstance(t, ast.Subscript) and root_name(t) == name for t in tg):
+                    raise AnalysisError('%s: element store into %s' % (what, name))
+            if touched is None:
+                continue
+            if elts is None or not _straight_line(fi, st):
+                raise AnalysisError('%s: %s is extended conditionally or before it is assigned (%s)' % (what, name, short(st)))
+            meth, args = touched
+            if meth == 'append' and len(args) == 1:
+                elts = elts + [args[0]]
+            elif meth == 'extend' and len(args) == 1:
+                elts = elts + _seq_elements(fi, args[0], what, depth + 1)
+            elif meth == 'insert' and len(args) == 2 and isinstance(args[0], ast.Constant) and isinstance(args[0].value, int) \
+                    and 0 <= args[0].value <= len(elts):
+                elts = elts[:args[0].value] + [args[1]] + elts[args[0].value:]
+            elif meth in ('count', 'index', 'copy'):
+                pass
+            else:
+                raise AnalysisError('%s: %s.%s(...) cannot be followed' % (what, name, meth))
+        if elts is None:
+            raise AnalysisError('%s: assignment of %s not found' % (what, name))
+        return elts
+    raise AnalysisError('%s: %s is not a literal list' % (what, short(expr)))
+
+
+def _dict_items(fi, expr, what):
+    """{key: value expr} of a dict valued expression: a literal, ``dict(k=v)``, or a local built from those plus
+    ``d[k] = v`` / ``d.update(...)`` / ``d.setdefault(k, v)``."""
+    if isinstance(expr, ast.Name):
+        if expr.id in _all_params(fi):
+            raise AnalysisError('%s: %s is a parameter' % (what, expr.id))
+        ls = layers.layers_of_var(fi.node, expr.id)
+    else:
+        ls = layers.layers_of_expr(expr)
+    items = {}
+    if not ls:
+        raise AnalysisError('%s: construction of %s not found' % (what, short(expr)))
+    for l in ls:
+        if l.kind != 'literal' or l.values is None:
+            raise AnalysisError('%s: part %s of the dict is not a literal' % (what, l.text))
+        for k in l.keys:
+            if l.below:
+                items.setdefault(k, l.values.get(k))
+            else:
+                items[k] = l.values.get(k)
+    return items
+
+
+# ------------------------------------------------------------------------------------------------ exception containment
+def _harmless_value(v):
+    if v is None:
+        return True
+    if isinstance(v, ast.Call) and isinstance(v.func, ast.Name) and v.func.id in ('dict', 'list', 'tuple', 'set', 'frozenset', 'str') \
+            and not v.keywords and all(_harmless_value(a) and not isinstance(a, ast.Name) for a in v.args):
+        return True
+    if isinstance(v, (ast.Dict, ast.List, ast.Tuple, ast.Set)):
+        parts = list(v.values) + [k for k in v.keys if k is not None] if isinstance(v, ast.Dict) else list(v.elts)
+        if isinstance(v, ast.Dict) and any(k is None for k in v.keys):
+            return False
+        return all(_harmless_value(p) for p in parts)
+    return not expr_may_raise(v)
+
+
+def _handler_completes(handler):
+    """The handler body cannot raise and falls through / returns with a constant-like value: it is made of ``pass``,
+    assignments / returns of values whose evaluation cannot raise.  Returns None or the offending statement."""
+    for s in handler.body:
+        if isinstance(s, ast.Pass):
+            continue
+        if isinstance(s, ast.Expr) and isinstance(s.value, ast.Constant):
+            continue
+        if isinstance(s, ast.Assign) and all(isinstance(t, ast.Name) for t in s.targets) and _harmless_value(s.value):
+            continue
+        if isinstance(s, ast.AnnAssign) and isinstance(s.target, ast.Name) and _harmless_value(s.value):
+            continue
+        if isinstance(s, ast.Return) and _harmless_value(s.value):
+            continue
+        return s
+    return None
+
+
+def _catch_all(fi, node):
+    """(try, handler, problem) for the innermost enclosing try body whose handlers stop *every* exception of ``node``
+    (a bare ``except`` / ``except BaseException`` / ``except Exception``) -- (None, None, None) when there is none.
+    ``problem`` names what lets an exception out anyway (an earlier, narrower handler that raises, the catch-all
+    handler itself raising or doing something that can raise)."""
+    cur = node
+    while cur is not None and cur is not fi.node:
+        par = fi.mod.parents.get(cur)
+        if isinstance(cur, ast.Lambda):
+            return None, None, None
+        if isinstance(cur, ast.GeneratorExp) and not (isinstance(par, ast.Call) and cur in par.args):
+            return None, None, None
+        cur = par
+    for tr, part in enclosing_tries(fi.mod, node, fi.node):
+        if part != 'body':
+            continue
+        for i, h in enumerate(tr.handlers):
+            if handler_catches(h, 'BaseException') or handler_catches(h, 'Exception'):
+                for h0 in tr.handlers[:i]:
+                    if any(isinstance(s, ast.Raise) for s in ast.walk(h0)):
+                        return tr, h, 'the narrower handler "except %s" before it raises' % norm(h0.type)
+                if any(isinstance(s, ast.Raise) for s in ast.walk(h)):
+                    return tr, h, 'the handler re-raises'
+                bad = _handler_completes(h)
+                if bad is not None:
+                    return tr, h, 'the handler runs %s, which can raise itself' % short(bad, 60)
+                if tr.finalbody and any(isinstance(s, ast.Raise) for f in tr.finalbody for s in ast.walk(f)):
+                    return tr, h, 'the finally clause raises'
+                return tr, h, None
+    return None, None, None
+
+
+def _is_parser_call(fi, c):
+    if not isinstance(c, ast.Call):
+        return False
+    f = c.func
+    if isinstance(f, ast.Name):
+        if f.id == PARSER_CLASS:
+            return True
+        v = _deref(fi, f)            # parse = _ParsedTB.from_string; parse(text)
+        return isinstance(v, ast.Attribute) and v.attr in PARSER_METHODS and v is not f
+    return isinstance(f, ast.Attribute) and f.attr in PARSER_METHODS
+
+
+def _module_callee(repo, fi, c):
+    """FuncInfo of a module-level function of the analysed module called by plain name, else None."""
+    if isinstance(c, ast.Call) and isinstance(c.func, ast.Name):
+        try:
+            kind, m, obj = repo.resolve(fi.mod, c.func.id)
+        except Exception:
+            return None
+        if kind == 'func' and m is fi.mod:
+            return obj
+    return None
+
+
+def _leaky_parser_functions(repo, flaw):
+    """Module-level functions of flaw.py out of which a parser exception can propagate (they call the parser, or
+    another such function, outside a sound catch-all).  Methods of the parser class itself are not listed."""
+    funcs = [fi for q, fi in flaw.functions.items() if '.' not in q]
+    leaky, calls_parser = set(), set()
+    changed = True
+    while changed:
+        changed = False
+        for fi in funcs:
+            for c in walk_body(fi.node):
+                if not isinstance(c, ast.Call):
+                    continue
+                g = _module_callee(repo, fi, c)
+                site = _is_parser_call(fi, c) or (g is not None and g.qualname in leaky)
+                touches = _is_parser_call(fi, c) or (g is not None and g.qualname in calls_parser)
+                if touches and fi.qualname not in calls_parser:
+                    calls_parser.add(fi.qualname)
+                    changed = True
+                if site and fi.qualname not in leaky:
+                    tr, h, problem = _catch_all(fi, c)
+                    if h is None or problem:
+                        leaky.add(fi.qualname)
+                        changed = True
+    return leaky, calls_parser
+
+
+def _maybe_unbound_at(fi, name, use_stmt):
+    """Can control reach ``use_stmt`` without a completed assignment of local ``name``?  (An assignment whose right
+    hand side raises has not happened: only the exceptional edges of assignment nodes are followed.)"""
+    cfg = cfg_of(fi)
+    assign_nodes = set()
+    for st, v, idx in assigned_value(fi.node, name):
+        if isinstance(st, ast.stmt):
+            assign_nodes.update(cfg.nodes_of(st))
+            if isinstance(st, (ast.For, ast.AsyncFor)):
+                # the target is bound on the 'iter' node only
+                assign_nodes.difference_update(cfg.nodes_of(st))
+                assign_nodes.update(n.id for n in cfg.nodes if n.kind == 'iter' and n.stmt is st)
+    targets = set(cfg.nodes_of(use_stmt))
+    seen, todo = {cfg.entry}, [cfg.entry]
+    while todo:
+        n = todo.pop()
+        if n in targets:
+            return True
+        for m in cfg.succ[n]:
+            if m in seen:
+                continue
+            if n in assign_nodes and (n, m) not in cfg.exc_edges:
+                continue
+            seen.add(m)
+            todo.append(m)
+    return False
+
+
+# ------------------------------------------------------------------------------------------------ Windows-only code
+_PLATFORM_EXPRS = ('os.name', 'sys.platform', 'platform.system()')
+_WINDOWS_VALUES = ('nt', 'win32', 'Windows', 'cygwin', 'ce')
+
+
+def _windows_test(t, mod, depth=0):
+    """+1 when ``t`` true implies Windows, -1 when ``t`` false implies Windows, 0 when it says nothing."""
+    if isinstance(t, ast.Name) and depth < 3:
+        vals = mod.assigns.get(t.id) or []
+        if len(vals) == 1 and isinstance(vals[0], ast.expr):
+            return _windows_test(vals[0], mod, depth + 1)
+        return 0
+    if isinstance(t, ast.UnaryOp) and isinstance(t.op, ast.Not):
+        return -_windows_test(t.operand, mod, depth + 1)
+    if isinstance(t, ast.Compare) and len(t.ops) == 1:
+        l, r, op = t.left, t.comparators[0], t.ops[0]
+        if norm(r) in _PLATFORM_EXPRS and isinstance(op, (ast.Eq, ast.NotEq, ast.Is, ast.IsNot)):
+            l, r = r, l
+        if norm(l) not in _PLATFORM_EXPRS:
+            return 0
+        if isinstance(r, ast.Constant) and r.value in _WINDOWS_VALUES:
+            if isinstance(op, (ast.Eq, ast.Is)):
+                return 1
+            if isinstance(op, (ast.NotEq, ast.IsNot)):
+                return -1
+        if isinstance(r, (ast.Tuple, ast.List, ast.Set)) and r.elts and \
+                all(isinstance(e, ast.Constant) and e.value in _WINDOWS_VALUES for e in r.elts):
+            if isinstance(op, ast.In):
+                return 1
+            if isinstance(op, ast.NotIn):
+                return -1
+        return 0
+    if isinstance(t, ast.Call) and norm(t) in ("sys.platform.startswith('win')", "os.name.startswith('nt')"):
+        return 1
+    return 0
+
+
+def windows_only(mod, u):
+    """Exemption for R20.a: every load of the name is dominated by a Windows-only condition (dead on the analysed platform)."""
+    for nd in u.nodes:
+        fnode = mod.enclosing_function(nd)
+        if fnode is None:
+            return None
+        fi = mod.func_of_node(fnode)
+        if fi is None:
+            return None
+        gated = False
+        for t, p in conds(fi, nd):
+            w = _windows_test(t, mod)
+            if (w == 1 and p is True) or (w == -1 and p is False):
+                gated = True
+                break
+        if not gated:
+            return None
+    return 'dominated by a Windows-only test (os.name == \'nt\')' if u.nodes else None
+
+
+# ------------------------------------------------------------------------------------------------ the failsafe, by role
+class _Route(object):
+    def __init__(self, kind, node, pattern=None, endpoint=None, endpoint_text=None, render=None, app=None):
+        self.kind, self.node, self.pattern, self.endpoint, self.endpoint_text, self.render, self.app = \
+            kind, node, pattern, endpoint, endpoint_text, render, app
+
+
+class _Failsafe(object):
+    """What create_app builds, read off the Application(...) call it returns."""
+
+    def __init__(self, repo):
+        self.repo = repo
+        self.flaw = repo.mod(FLAW)
+        self.ca = self.flaw.func('create_app')
+        self._cache = {}
+
+    def _memo(self, key, fn):
+        if key not in self._cache:
+            try:
+                self._cache[key] = (True, fn())
+            except AnalysisError as e:
+                self._cache[key] = (False, e)
+        ok, v = self._cache[key]
+        if not ok:
+            raise AnalysisError(str(v))
+        return v
+
+    # -- the Application(...) call ---------------------------------------------------------------------
+    def _is_application(self, c):
+        if not isinstance(c, ast.Call):
+            return False
+        if call_tail(c) == 'Application':
+            return True
+        if isinstance(c.func, ast.Name):
+            try:
+                kind, m, obj = self.repo.resolve(self.flaw, c.func.id)
+            except Exception:
+                return False
+            return kind == 'class' and obj.name == 'Application'
+        return False
+
+    @property
+    def app_call(self):
+        def find():
+            calls = [c for c in walk_body(self.ca.node) if self._is_application(c)]
+            if len(calls) != 1:
+                raise AnalysisError('create_app: expected one Application(...) construction, found %d' % len(calls))
+            return calls[0]
+        return self._memo('app', find)
+
+    def _app_arg(self, name, pos):
+        v = argn(self.app_call, name, pos)
+        if v is None or (isinstance(v, ast.Constant) and v.value is None):
+            raise AnalysisError('create_app: Application(...) is not given %s' % name)
+        return v
+
+    # -- routes ----------------------------------------------------------------------------------------------
+    @property
+    def routes_node(self):
+        return self._app_arg('routes', 0)
+
+    @property
+    def routes(self):
+        return self._memo('routes', self._routes)
+
+    def _routes(self):
+        ca = self.ca
+        out = []
+        for e in _seq_elements(ca, self.routes_node, 'create_app routes'):
+            e0 = _deref(ca, e)
+            if isinstance(e0, ast.Tuple) and not any(isinstance(x, ast.Starred) for x in e0.elts):
+                parts = list(e0.elts)
+            elif isinstance(e0, ast.Call) and call_tail(e0) == 'Route' and not any(k.arg is None for k in e0.keywords):
+                parts = [argn(e0, 'pattern', 0), argn(e0, 'endpoint', 1), argn(e0, 'render', 2)]
+                extra = [k.arg for k in e0.keywords if k.arg not in ('pattern', 'endpoint', 'render')]
+                if None in parts or extra or len(e0.args) > 3:
+                    raise AnalysisError('create_app: route %s cannot be read' % short(e0))
+            else:
+                raise AnalysisError('create_app: route entry %s is not a (pattern, endpoint, render) tuple' % short(e))
+            pattern = _fold(self.repo, ca, parts[0]) if parts else _UNFOLDED
+            if not isinstance(pattern, str):
+                raise AnalysisError('create_app: route pattern %s is not a constant' % short(parts[0] if parts else e))
+            if len(parts) == 3:
+                ep = _deref(ca, parts[1])
+                epf = None
+                if isinstance(ep, ast.Name):
+                    try:
+                        kind, m, obj = self.repo.resolve(self.flaw, ep.id)
+                    except Exception:
+                        kind, obj = 'unknown', None
+                    if kind == 'func':
+                        epf = obj
+                render = _fold(self.repo, ca, parts[2])
+                if render is _UNFOLDED:
+                    render = norm(_deref(ca, parts[2]))
+                out.append(_Route('page', e, pattern, epf, epf.qualname if epf is not None else norm(ep), render))
+            elif len(parts) == 2:
+                out.append(_Route('mount', e, pattern, app=_deref(ca, parts[1])))
+            else:
+                raise AnalysisError('create_app: route entry %s has %d elements' % (short(e0), len(parts)))
+        if not out:
+            raise AnalysisError('create_app: no routes found')
+        return out
+
+    @property
+    def page_routes(self):
+        return [r for r in self.routes if r.kind == 'page']
+
+    @property
+    def endpoint(self):
+        def find():
+            eps = [r.endpoint for r in self.page_routes]
+            if not eps or any(e is None for e in eps):
+                raise AnalysisError('failsafe endpoint %r is not a module-level function'
+                                    % sorted(set(r.endpoint_text for r in self.page_routes)))
+            if len(set(e.key for e in eps)) != 1:
+                raise AnalysisError('page routes name several endpoints: %r' % sorted(set(e.qualname for e in eps)))
+            self.repo.functions_touched.add(eps[0].key)
+            return eps[0]
+        return self._memo('endpoint', find)
+
+    # -- resources ---------------------------------------------------------------------------------------------
+    @property
+    def resources_node(self):
+        return self._app_arg('resources', 1)
+
+    @property
+    def resources(self):
+        return self._memo('resources', lambda: _dict_items(self.ca, self.resources_node, 'create_app resources'))
+
+    def resource_use_stmt(self, key):
+        """The statement in which the value of resource ``key`` is read."""
+        v = self.resources.get(key)
+        return stmt_of(self.flaw, v) if v is not None else None
+
+    # -- template ----------------------------------------------------------------------------------------------
+    @property
+    def registrations(self):
+        return [c for c in walk_body(self.ca.node) if isinstance(c, ast.Call) and call_tail(c) == 'register_source']
+
+    @property
+    def template(self):
+        """(registered name, source expression, folded text, register_source call)"""
+        def find():
+            regs = self.registrations
+            if len(regs) != 1:
+                raise AnalysisError('create_app: expected one register_source(...) call, found %d' % len(regs))
+            c = regs[0]
+            name_e, src_e = argn(c, 'name', 0), argn(c, 'source', 1)
+            if name_e is None or src_e is None:
+                raise AnalysisError('create_app: cannot read %s' % short(c))
+            name = _fold(self.repo, self.ca, name_e)
+            text = _fold(self.repo, self.ca, src_e)
+            if not isinstance(text, str):
+                raise AnalysisError('cannot fold the registered template source %s' % short(src_e))
+            return (name if name is not _UNFOLDED else norm(name_e)), _deref(self.ca, src_e), text, c
+        return self._memo('template', find)
+
+    # -- endpoint context --------------------------------------------------------------------------------------
+    @property
+    def context(self):
+        """[(return stmt, {key: value expr})] of the endpoint."""
+        def find():
+            epf = self.endpoint
+            out = []
+            for r in returns_of(epf):
+                if r.value is None:
+                    raise AnalysisError('%s returns nothing on some path' % epf.qualname)
+                out.append((r, _dict_items(epf, r.value, '%s context' % epf.qualname)))
+            if not out:
+                raise AnalysisError('%s has no return' % epf.qualname)
+            return out
+        return self._memo('context', find)
+
+
+def _param_behind(fi, expr):
+    """Name of the parameter of ``fi`` an expression denotes (aliases followed), else None."""
+    e = _deref(fi, expr)
+    if isinstance(e, ast.Name) and e.id in _all_params(fi) and not assigned_value(fi.node, e.id):
+        return e.id
+    return None
+
+
+def _is_given_list(fi, expr, param, depth=0):
+    """``expr`` denotes the object passed as ``param`` (or, when that is falsy, an empty stand-in)."""
+    if depth > 4:
+        return False
+    if isinstance(expr, ast.Constant):
+        return expr.value is None
+    if isinstance(expr, (ast.List, ast.Tuple)):
+        return not expr.elts
+    if isinstance(expr, ast.BoolOp) and isinstance(expr.op, ast.Or):
+        return all(_is_given_list(fi, v, param, depth + 1) for v in expr.values) and \
+            any(isinstance(v, ast.Name) for v in expr.values)
+    if isinstance(expr, ast.Name):
+        if expr.id == param:
+            return not assigned_value(fi.node, param) or \
+                all(idx is None and not isinstance(st, ast.AugAssign) and _is_given_list(fi, v, param, depth + 1)
+                    for st, v, idx in assigned_value(fi.node, param))
+        binds = assigned_value(fi.node, expr.id)
+        if not binds or expr.id in _all_params(fi):
+            return False
+        return all(idx is None and isinstance(st, (ast.Assign, ast.AnnAssign)) and _is_given_list(fi, v, param, depth + 1)
+                   for st, v, idx in binds)
+    return False
+
+
+# ------------------------------------------------------------------------------------------------ rule groups
+def _group(rep, fn, *args):
+    """Run one group of rules: an AnalysisError (or an internal error) in it is a gap, the other groups still run."""
+    def wrapped():
+        try:
+            return fn(*args)
+        except AnalysisError:
+            raise
+        except RecursionError:
+            raise AnalysisError('%s: recursion limit' % fn.__name__)
+        except Exception as e:   # a rule must never crash the checker
+            raise AnalysisError('%s: internal error %s: %s' % (fn.__name__, type(e).__name__, e))
+    wrapped.__name__ = fn.__name__.lstrip('_')
+    return rep.guard(wrapped)
+
+
+def _names_resolve(rep, fs):
+    flaw, server = fs.flaw, rep.repo.mod('clastic.server')
     rep.rule('R20.a', 'every global Name load in flaw.py (all scopes) and in the failsafe launcher functions of server.py resolves')
     check_unbound(rep, 'R20.a', [flaw])
     launcher = {'run_simple', 'run_simple.serve_error_app', 'restart_with_reloader', 'restart_with_reloader.consume_lines',
                 'run_with_reloader'}
-    check_unbound(rep, 'R20.a', [server], scope_filter=lambda m, sc: sc in launcher, exempt=platform_gated)
+    check_unbound(rep, 'R20.a', [server], scope_filter=lambda m, sc: sc in launcher, exempt=windows_only)
     rep.floor('R20.a', 8)
 
-    # ---- R20.b -----------------------------------------------------------
-    rep.rule('R20.b', 'parsing is under a catch-all handler; routes share endpoint and template; resources = endpoint params')
-    ca = flaw.func('create_app')
-    parse_calls = [c for c in walk_body(ca.node) if isinstance(c, ast.Call) and
-                   (call_tail(c) in ('from_string', 'to_dict') or call_name(c) == '_ParsedTB')]
-    if not parse_calls:
+
+def _parser_contained(rep, fs):
+    """R20.b (1): no exception of the traceback parser, and none of the endpoint's own text handling, gets out."""
+    repo, flaw, ca = fs.repo, fs.flaw, fs.ca
+    leaky, calls_parser = _leaky_parser_functions(repo, flaw)
+    sites = []
+    for c in walk_body(ca.node):
+        if not isinstance(c, ast.Call):
+            continue
+        g = _module_callee(repo, ca, c)
+        if _is_parser_call(ca, c) or (g is not None and g.qualname in leaky):
+            sites.append(c)
+    contained_elsewhere = [c for c in walk_body(ca.node) if isinstance(c, ast.Call) and _module_callee(repo, ca, c) is not None
+                           and _module_callee(repo, ca, c).qualname in calls_parser]
+    if not sites and not contained_elsewhere:
         raise AnalysisError('create_app no longer calls the traceback parser')
-    for c in parse_calls:
-        h = protected_by(ca, c, 'BaseException') or protected_by(ca, c, 'Exception')
-        ok = h is not None
-        sub_ok = False
-        if ok:
-            # handler substitutes a constant for parsed_error and does not re-raise
-            sub_ok = any(isinstance(s, ast.Assign) and isinstance(s.value, (ast.Dict, ast.Constant)) for s in h.body) \
-                and not any(isinstance(s, ast.Raise) for s in ast.walk(h))
-        rep.check('R20.b', fkey(ca, c), ok and sub_ok,
-                  'parser call is under a catch-all handler that substitutes a constant' if ok and sub_ok else
-                  'parser call %s can raise out of create_app (no catch-all handler with a constant fallback)' % short(c),
-                  flaw, c)
-    gi = flaw.func('get_flaw_info')
-    subs = [n for n in walk_body(gi.node) if isinstance(n, ast.Subscript) and isinstance(n.value, ast.Call)
-            and call_tail(n.value) == 'splitlines']
-    for s in subs:
-        h = protected_by(gi, s, 'BaseException') or protected_by(gi, s, 'Exception')
-        rep.check('R20.b', fkey(gi, s), h is not None,
-                  'last-line extraction is under a catch-all handler' if h else
-                  'tb_str.splitlines()[..] can raise (empty / non-text input) outside any handler', flaw, s)
-    # routes: literal list in create_app
-    routes = None
-    for st in stmts_of(ca.node):
-        if isinstance(st, ast.Assign) and norm(st.targets[0]) == 'routes' and isinstance(st.value, ast.List):
-            routes = st.value
-    if routes is None:
-        raise AnalysisError('create_app: literal routes list not found')
-    page_routes = []
-    for e in routes.elts:
-        if isinstance(e, ast.Tuple) and len(e.elts) == 3 and isinstance(e.elts[0], ast.Constant):
-            page_routes.append((e.elts[0].value, norm(e.elts[1]), repo.try_fold(e.elts[2], flaw, norm(e.elts[2]))))
-    pats = [p for p, _, _ in page_routes]
+    for c in sites:
+        tr, h, problem = _catch_all(ca, c)
+        ok = h is not None and not problem
+        rep.check('R20.b', fkey(ca, c), ok,
+                  'parser call is under a catch-all handler that completes with a harmless value' if ok else
+                  'parser call %s can raise out of create_app (%s)'
+                  % (short(c), problem or 'no catch-all handler with a constant fallback'), flaw, c)
+    for c in contained_elsewhere:
+        if c not in sites:
+            rep.ok('R20.b', fkey(ca, c), 'the called function contains every parser exception itself', flaw, c)
+    # whatever create_app hands on as the parsed error is bound on every path, the handler's included
+    try:
+        res = fs.resources
+    except AnalysisError:
+        res = None
+    if res is not None:
+        for k, v in sorted(res.items(), key=lambda kv: str(kv[0])):
+            if not isinstance(v, ast.Name) or v.id in _all_params(ca) or not assigned_value(ca.node, v.id):
+                continue
+            binds = assigned_value(ca.node, v.id)
+            guarded = [st for st, val, idx in binds if isinstance(st, ast.stmt) and
+                       any(part in ('body', 'handler', 'orelse') for _, part in enclosing_tries(flaw, st, ca.node))]
+            if not guarded:
+                continue
+            use = stmt_of(flaw, v)
+            unb = _maybe_unbound_at(ca, v.id, use)
+            rep.check('R20.b', fkey(ca, 'resource %s bound' % k), not unb,
+                      'local %s is assigned on every path to the resources (normal and handler)' % v.id if not unb else
+                      'resource %r reads local %s, which is unassigned when the parser raised (the handler substitutes nothing): '
+                      'UnboundLocalError out of create_app' % (k, v.id), flaw, use)
+    # the endpoint runs per request: its own text handling is contained the same way
+    epf = fs.endpoint
+    risky, n_risky = _risky_nodes(repo, epf)
+    for n, why in risky:
+        n_risky += 1
+        tr, h, problem = _catch_all(epf, n)
+        ok = h is not None and not problem
+        rep.check('R20.b', fkey(epf, n), ok,
+                  '%s is under a catch-all handler that completes with a harmless value' % why if ok else
+                  '%s can raise (empty / non-text input) %s' % (short(n), 'outside any catch-all handler' if h is None else '-- ' + problem),
+                  flaw, n)
+    ctx_last = [v for _, items in fs.context for k, v in items.items() if k == 'last_line']
+    if not n_risky and ctx_last and not all(_param_behind(epf, v) for v in ctx_last):
+        raise AnalysisError('%s: the computation of last_line was not found' % epf.qualname)
+
+
+_SAFE_CONSTRUCTORS = ('dict', 'list', 'tuple', 'set', 'frozenset')
+_SAFE_PREDICATES = ('isinstance', 'bool', 'id', 'type', 'callable')
+
+
+def _safe_builtin_call(n):
+    if not (isinstance(n.func, ast.Name) and not any(k.arg is None for k in n.keywords)):
+        return False
+    if n.func.id in _SAFE_CONSTRUCTORS:
+        # dict(a=x) / list() / tuple([..]) cannot raise; list(x) can (x not iterable)
+        return all(isinstance(a, (ast.Dict, ast.List, ast.Tuple, ast.Set, ast.Constant)) for a in n.args)
+    if n.func.id in _SAFE_PREDICATES:
+        return not any(isinstance(a, ast.Starred) for a in n.args)
+    return False
+
+
+def _risky_nodes(repo, fi, depth=0, seen=None):
+    """([(node, description)], number of self-contained module calls): expressions of ``fi`` that can raise for an
+    odd input -- subscript loads and calls (other than container constructors and calls of module functions that
+    contain their own exceptions)."""
+    out, contained = [], 0
+    seen = set() if seen is None else seen
+    seen.add(fi.key)
+    in_handlers = set()
+    for n in walk_body(fi.node):
+        if isinstance(n, ast.ExceptHandler):
+            for s in ast.walk(n):
+                in_handlers.add(id(s))
+    for n in walk_body(fi.node):
+        if id(n) in in_handlers:
+            continue      # handler bodies are judged by _handler_completes
+        if isinstance(n, ast.Subscript) and isinstance(n.ctx, ast.Load):
+            out.append((n, 'subscript %s' % short(n, 50)))
+        elif isinstance(n, ast.Call):
+            if _safe_builtin_call(n):
+                continue
+            g = _module_callee(repo, fi, n)
+            if g is not None and depth < 4 and g.key not in seen:
+                inner, _ = _risky_nodes(repo, g, depth + 1, seen)
+                inner = [m for m, w in inner if _catch_all(g, m)[1] is None or _catch_all(g, m)[2]]
+                loose_raise = [s for s in stmts_of(g.node) if isinstance(s, ast.Raise) and _catch_all(g, s)[1] is None]
+                if not inner and not loose_raise:
+                    contained += 1
+                    continue
+            par = fi.mod.parents.get(n)
+            if isinstance(par, ast.Subscript) and par.value is n:
+                continue  # reported with the subscript around it
+            out.append((n, 'call %s' % short(n, 50)))
+    return out, contained
+
+
+def _routes_agree(rep, fs):
+    """R20.b (2): route / template / resource agreement."""
+    repo, flaw, ca = fs.repo, fs.flaw, fs.ca
+    routes = fs.routes
+    rnode = fs.routes_node
+    pages = fs.page_routes
+    pats = [r.pattern for r in pages]
     ok = '/' in pats and any('*>' in p for p in pats)
     rep.check('R20.b', fkey(ca, 'routes'), ok, 'root and catch-all routes present: %r' % pats if ok else
-              'failsafe lacks the root or the catch-all route: %r' % pats, flaw, routes)
-    eps = set(ep for _, ep, _ in page_routes)
-    tmpls = set(t for _, _, t in page_routes)
-    rep.check('R20.b', fkey(ca, 'routes same endpoint/template'), len(eps) == 1 and len(tmpls) == 1,
-              'all page routes use endpoint %s and template %s' % (sorted(eps), sorted(tmpls)) if len(eps) == 1 and len(tmpls) == 1 else
-              'page routes disagree on endpoint/template: %r' % page_routes, flaw, routes)
-    # registered template name == rendered name, source == _FLAW_TEMPLATE
-    regs = [c for c in walk_body(ca.node) if isinstance(c, ast.Call) and call_tail(c) == 'register_source']
-    reg_ok = False
-    tmpl_name = None
-    if len(regs) == 1 and len(regs[0].args) >= 2:
-        tmpl_name = repo.try_fold(regs[0].args[0], flaw)
-        reg_ok = tmpl_name in tmpls and norm(regs[0].args[1]) == '_FLAW_TEMPLATE'
+              'failsafe lacks the root or the catch-all route: %r' % pats, flaw, rnode)
+    eps = set(r.endpoint_text for r in pages)
+    tmpls = set(r.render if isinstance(r.render, str) else repr(r.render) for r in pages)
+    same = len(eps) == 1 and len(tmpls) == 1
+    rep.check('R20.b', fkey(ca, 'routes same endpoint/template'), same,
+              'all page routes use endpoint %s and template %s' % (sorted(eps), sorted(tmpls)) if same else
+              'page routes disagree on endpoint/template: %r' % [(r.pattern, r.endpoint_text, r.render) for r in pages], flaw, rnode)
+    # registered template name == rendered name
+    tmpl_name, src_e, text, reg = fs.template
+    reg_ok = tmpl_name in tmpls
     rep.check('R20.b', fkey(ca, 'register_source'), reg_ok,
-              'template %r is registered from _FLAW_TEMPLATE and is the one the routes render' % tmpl_name if reg_ok else
-              'registered template (%r) and rendered template (%r) differ' % (tmpl_name, sorted(tmpls)), flaw,
-              regs[0] if regs else ca.node)
+              'template %r is registered from %s and is the one the routes render' % (tmpl_name, short(src_e, 40)) if reg_ok else
+              'registered template (%r) and rendered template (%r) differ' % (tmpl_name, sorted(tmpls)), flaw, reg)
     # the render factory given to Application is the one the template was registered with
-    app_calls = [c for c in walk_body(ca.node) if isinstance(c, ast.Call) and call_tail(c) == 'Application']
-    ok = len(app_calls) == 1 and kwarg(app_calls[0], 'render_factory') is not None and regs and \
-        norm(kwarg(app_calls[0], 'render_factory')) == norm(regs[0].func.value)
+    rf = argn(fs.app_call, 'render_factory', 3)
+    ok = rf is not None and isinstance(reg.func, ast.Attribute) and _canon_name(ca, rf) is not None and \
+        _canon_name(ca, rf) == _canon_name(ca, reg.func.value)
     rep.check('R20.b', fkey(ca, 'render_factory'), ok, 'Application gets the render factory holding the template' if ok else
-              'Application is not given the render factory the template was registered with', flaw,
-              app_calls[0] if app_calls else ca.node)
+              'Application is not given the render factory the template was registered with', flaw, fs.app_call)
     # resources keys == endpoint parameters
-    res = None
-    for st in stmts_of(ca.node):
-        if isinstance(st, ast.Assign) and norm(st.targets[0]) == 'resources' and isinstance(st.value, ast.Dict):
-            res = st.value
-    if res is None:
-        raise AnalysisError('create_app: literal resources dict not found')
-    keys = set(k.value for k in res.keys if isinstance(k, ast.Constant))
-    ep_name = sorted(eps)[0] if eps else None
-    epf = flaw.functions.get(ep_name)
-    if epf is None:
-        raise AnalysisError('failsafe endpoint %r not found' % ep_name)
+    res = fs.resources
+    keys = set(res)
+    epf = fs.endpoint
     a = epf.node.args
-    required = [x.arg for x in a.args[:len(a.args) - len(a.defaults)]] + \
+    pos = a.posonlyargs + a.args
+    required = [x.arg for x in pos[:len(pos) - len(a.defaults)]] + \
         [x.arg for x, d in zip(a.kwonlyargs, a.kw_defaults) if d is None]
     builtins_ = set(repo.mod('clastic.route').const('RESERVED_ARGS'))
-    missing = [p for p in required if p not in keys and p not in builtins_]
+    path_vars = set()
+    missing = [p for p in required if p not in keys and p not in builtins_ and p not in path_vars]
     rep.check('R20.b', fkey(ca, 'resources vs endpoint params'), not missing,
               'every required endpoint parameter %r is a resource or built-in' % required if not missing else
-              'endpoint parameters %r are not provided by create_app resources %r' % (missing, sorted(keys)), flaw, res)
-    # the resource values are the function's inputs
-    vals = dict((k.value, norm(v)) for k, v in zip(res.keys, res.values) if isinstance(k, ast.Constant))
-    ok = vals.get('tb_str') == ca.params()[0]
-    rep.check('R20.b', fkey(ca, 'tb_str resource'), ok, 'the error text itself is the tb_str resource' if ok else
-              'tb_str resource is not the given error text: %r' % vals.get('tb_str'), flaw, res)
+              'endpoint parameters %r are not provided by create_app resources %r' % (missing, sorted(map(str, keys))), flaw,
+              fs.resources_node)
     rep.floor('R20.b', 7)
+    last = routes[-1]
+    ok = last.kind == 'page' and '*>' in last.pattern
+    rep.check('R20.b', fkey(ca, 'catch-all last'), ok,
+              'the catch-all page route is the last route (everything not served before it gets the page)' if ok else
+              'the catch-all route is not the last route', flaw, rnode)
 
+
+def _static_nonbreaking(rep, fs):
     # the embedded asset application must not pre-empt the catch-all page: every error it raises is non-breaking
     from .c14 import check_nonbreaking
     if check_nonbreaking(rep, 'R20.b') < 4:
         raise AnalysisError('static serving raises not found')
-    ok = any(isinstance(e, ast.Tuple) and len(e.elts) == 2 and isinstance(e.elts[1], ast.Call) and call_name(e.elts[1]) == 'StaticApplication'
-             for e in routes.elts)
-    idx_static = [i for i, e in enumerate(routes.elts) if isinstance(e, ast.Tuple) and len(e.elts) == 2]
-    idx_catch = [i for i, e in enumerate(routes.elts) if isinstance(e, ast.Tuple) and isinstance(e.elts[0], ast.Constant) and '*>' in str(e.elts[0].value)]
-    rep.check('R20.b', fkey(ca, 'catch-all last'), bool(idx_catch) and idx_catch[-1] == len(routes.elts) - 1,
-              'the catch-all page route is the last route (everything not served before it gets the page)' if idx_catch and idx_catch[-1] == len(routes.elts) - 1 else
-              'the catch-all route is not the last route', flaw, routes)
-    # the monitored-file list that is shown is the list that was given: filtering builds new lists, nothing removes
-    # entries from the caller's list (sorting it in place keeps its content)
-    from .. import effects
-    for fq in ('create_app', '_filter_site_files'):
-        ffi = flaw.func(fq)
-        alias = set(ffi.params())
-        for s in stmts_of(ffi.node):
-            if isinstance(s, ast.Assign) and isinstance(s.targets[0], ast.Name):
+
+
+def _aliases_of(fi, roots):
+    alias = set(roots)
+    changed = True
+    while changed:
+        changed = False
+        for s in stmts_of(fi.node):
+            if isinstance(s, ast.Assign) and len(s.targets) == 1 and isinstance(s.targets[0], ast.Name) and s.targets[0].id not in alias:
                 v = s.value
                 cands = [v] + (list(v.values) if isinstance(v, ast.BoolOp) else []) + ([v.body, v.orelse] if isinstance(v, ast.IfExp) else [])
                 if any(isinstance(x, ast.Name) and x.id in alias for x in cands):
                     alias.add(s.targets[0].id)
+                    changed = True
+    return alias
+
+
+def _file_lists_kept(rep, fs):
+    """R20.b (3): the monitored-file list that is shown is the list that was given: filtering builds new lists, nothing
+    removes entries from the caller's list (sorting it in place keeps its content)."""
+    from .. import effects
+    repo, flaw, ca = fs.repo, fs.flaw, fs.ca
+    todo = [(ca, set(ca.params()))]
+    anchor = flaw.functions.get('_filter_site_files')
+    if anchor is not None:
+        repo.functions_touched.add(anchor.key)
+        todo.append((anchor, set(anchor.params())))
+    done = {}
+    while todo:
+        fi, roots = todo.pop(0)
+        if fi.key in done:
+            continue
+        alias = _aliases_of(fi, roots)
+        done[fi.key] = (fi, alias)
+        for c in walk_body(fi.node):
+            g = _module_callee(repo, fi, c)
+            if g is None or g.key in done:
+                continue
+            ps = g.params()
+            roots2 = set(ps[i] for i, x in enumerate(c.args) if isinstance(x, ast.Name) and x.id in alias and i < len(ps))
+            roots2 |= set(k.arg for k in c.keywords if k.arg in ps and isinstance(k.value, ast.Name) and k.value.id in alias)
+            if roots2:
+                todo.append((g, roots2))
+    for key in sorted(done):
+        ffi, alias = done[key]
         shrink = [e for e in effects.effects_in(ffi.node) if e.root in alias and
                   ((e.kind == 'mutcall' and e.method in ('remove', 'pop', 'clear', 'popitem', 'discard')) or e.kind == 'delete' or
                    (e.kind == 'store' and isinstance(e.target, ast.Subscript)))]
         rep.check('R20.b', fkey(ffi, 'input lists keep their entries'), not shrink,
                   'no entry is removed from the given file list (filters build new lists)' if not shrink else
                   '%s removes entries from the caller\'s monitored-file list in place (%s): the page (and the reloader that owns the list) '
-                  'loses files' % (fq, [short(e.node) for e in shrink]), flaw, shrink[0].node if shrink else ffi.node)
-    vals_ = dict((k.value, norm(v)) for k, v in zip(res.keys, res.values) if isinstance(k, ast.Constant))
-    ok = vals_.get('all_mon_files') == ca.params()[1]
-    rep.check('R20.b', fkey(ca, 'all_mon_files resource'), ok, 'the full file list shown is the list that was given' if ok else
-              'all_mon_files is not the given monitored_files list', flaw, res)
+                  'loses files' % (ffi.qualname, [short(e.node) for e in shrink]), flaw, shrink[0].node if shrink else ffi.node)
 
-    # ---- R20.c -----------------------------------------------------------
-    rep.rule('R20.c', 'every reference in _FLAW_TEMPLATE is HTML-escaped; autoescaping is never switched off')
-    try:
-        tmpl = flaw.const('_FLAW_TEMPLATE')
-    except Exception as e:
-        raise AnalysisError('cannot fold _FLAW_TEMPLATE: %s' % e)
-    tags = check_template_escaping(rep, 'R20.c', repo, flaw, '_FLAW_TEMPLATE', tmpl)
+
+def _shown_is_given(rep, fs):
+    """The error text and the full file list on the page are the objects create_app was given: template key ->
+    endpoint context value -> endpoint parameter -> resource of that name -> create_app parameter."""
+    flaw, ca, epf = fs.flaw, fs.ca, fs.endpoint
+    res = fs.resources
+    cparams = ca.params()
+    for tkey, pidx, label in (('tb_str', 0, 'the error text itself is the %s resource'),
+                              ('all_mon_files', 1, 'the full file list shown is the list that was given (%s)')):
+        rkeys = set()
+        bad = None
+        for r, items in fs.context:
+            if tkey not in items:
+                bad = 'the endpoint context has no %r' % tkey
+                break
+            p = _param_behind(epf, items[tkey])
+            if p is None:
+                bad = 'context value %s of %r is not the injected resource' % (short(items[tkey], 40), tkey)
+                break
+            rkeys.add(p)
+        if bad is None and len(rkeys) != 1:
+            bad = 'returns disagree on %r' % tkey
+        rkey = sorted(rkeys)[0] if rkeys else tkey
+        if bad is None and rkey not in res:
+            bad = '%s resource is missing' % rkey
+        if bad is None:
+            v = res[rkey]
+            if pidx >= len(cparams):
+                raise AnalysisError('create_app has no parameter %d' % pidx)
+            good = _is_given_list(ca, v, cparams[pidx]) and not (isinstance(v, ast.Constant))
+            if not good:
+                bad = '%s resource is not the given %s: %s' % (rkey, cparams[pidx], short(v, 50))
+        rep.check('R20.b', fkey(ca, '%s resource' % tkey), bad is None, (label % rkey) if bad is None else bad, flaw,
+                  fs.resources_node)
+
+
+def _template_escapes(rep, fs):
+    repo, flaw = fs.repo, fs.flaw
+    rep.rule('R20.c', 'every reference in the failsafe template is HTML-escaped; autoescaping is never switched off')
+    tmpl_name, src_e, text, reg = fs.template
+    cname = norm(src_e) if isinstance(src_e, ast.Name) else '_FLAW_TEMPLATE'
+    tags = check_template_escaping(rep, 'R20.c', repo, flaw, cname, text)
     refs = set(t.refpath for t in tags if t.kind == 'ref')
     need = {'tb_str', 'last_line', 'exc_type', 'exc_msg'}
-    rep.check('R20.c', '%s::_FLAW_TEMPLATE::fields' % FLAW, need <= refs,
+    rep.check('R20.c', '%s::%s::fields' % (FLAW, cname), need <= refs,
               'page shows %s' % sorted(need) if need <= refs else 'page template no longer shows %s' % sorted(need - refs), flaw)
     aw = autoescape_writes(repo)
     rep.check('R20.c', 'clastic::autoescape_filter', not aw, 'no code in clastic assigns autoescape_filter' if not aw else
               'autoescape_filter is assigned at %s' % ', '.join('%s:%s' % (m.relpath, getattr(n, 'lineno', '?')) for m, n in aw))
     rep.floor('R20.c', 8)
     # the endpoint passes the fields the template reads
-    ret = [r for r in returns_of(epf) if isinstance(r.value, ast.Dict)]
-    ctx_keys = set(k.value for r in ret for k in r.value.keys if isinstance(k, ast.Constant))
+    epf = fs.endpoint
     top_refs = set(t.refpath.split('.')[0] for t in tags if t.kind in ('ref', 'section') and not t.closing) - {''}
     sect_inner = {'exc_type', 'exc_msg', 'source_file'}
-    missing = sorted(x for x in top_refs - sect_inner if x not in ctx_keys)
-    rep.check('R20.c', fkey(epf, 'context keys'), not missing and bool(ret),
-              'endpoint supplies every top-level template key' if not missing and ret else
-              'template reads %r which get_flaw_info does not supply' % missing, flaw, epf.node)
+    missing = set()
+    for r, items in fs.context:
+        missing |= set(x for x in top_refs - sect_inner if x not in items)
+    missing = sorted(missing)
+    rep.check('R20.c', fkey(epf, 'context keys'), not missing,
+              'endpoint supplies every top-level template key' if not missing else
+              'template reads %r which %s does not supply' % (missing, epf.qualname), flaw, epf.node)
 
-    # ---- R20.d -----------------------------------------------------------
+
+def _partition_side(fi, expr, depth=0):
+    """Index (0 / 1 / 2) of the ``<line>.partition(<sep>)`` result a name holds on every binding, else None."""
+    if not isinstance(expr, ast.Name) or depth > 6:
+        return None
+    binds = assigned_value(fi.node, expr.id)
+    if not binds or expr.id in _all_params(fi):
+        return None
+    sides = set()
+    for st, v, idx in binds:
+        if idx is None and isinstance(v, ast.Name):
+            sides.add(_partition_side(fi, v, depth + 1))
+        elif isinstance(idx, int) and isinstance(v, ast.Call) and call_tail(v) == 'partition':
+            sides.add(idx)
+        elif idx is None and isinstance(v, ast.Subscript) and isinstance(v.slice, ast.Constant) and isinstance(v.slice.value, int):
+            inner = _deref(fi, v.value)
+            if isinstance(inner, ast.Call) and call_tail(inner) == 'partition':
+                sides.add(v.slice.value % 3)
+            else:
+                sides.add(None)
+        else:
+            sides.add(None)
+    return sides.pop() if len(sides) == 1 else None
+
+
+def _parsed_branch(rep, fs):
+    flaw = fs.flaw
     rep.rule('R20.d', '_ParsedTB.to_dict exports what {#parsed_err} reads; from_string has a normal return')
     td = flaw.func('_ParsedTB.to_dict')
-    tdr = [r for r in returns_of(td) if isinstance(r.value, ast.Dict)]
-    td_keys = set(k.value for r in tdr for k in r.value.keys if isinstance(k, ast.Constant))
+    td_keys = None
+    for r in returns_of(td):
+        if r.value is None:
+            continue
+        ks = set(_dict_items(td, r.value, 'to_dict'))
+        td_keys = ks if td_keys is None else (td_keys & ks)
+    if td_keys is None:
+        raise AnalysisError('to_dict: no dict return found')
     need = {'exc_type', 'exc_msg'}
     rep.check('R20.d', fkey(td, 'keys'), need <= td_keys, 'to_dict exports %s' % sorted(need) if need <= td_keys else
               'to_dict no longer exports %s' % sorted(need - td_keys), flaw, td.node)
-    fs = flaw.func('_ParsedTB.from_string')
-    cfg = cfg_of(fs)
-    rets = returns_of(fs)
+    fs_ = flaw.func('_ParsedTB.from_string')
+    cfg = cfg_of(fs_)
+    rets = returns_of(fs_)
     ok = bool(rets) and any(cfg.reachable(n) for r in rets for n in cfg.nodes_of(r))
-    rep.check('R20.d', fkey(fs, 'return'), ok, 'from_string has a reachable return of a parsed object' if ok else
-              'from_string cannot return normally', flaw, fs.node)
-    rets_cls = [r for r in rets if isinstance(r.value, ast.Call) and norm(r.value.func) == 'cls']
-    ok = bool(rets_cls) and all(len(r.value.args) >= 2 and norm(r.value.args[0]) == 'exc_type' and norm(r.value.args[1]) == 'exc_msg'
-                                for r in rets_cls)
-    rep.check('R20.d', fkey(fs, 'cls(exc_type, exc_msg, ...)'), ok,
-              'parsed type and message are passed in constructor order' if ok else
-              'from_string does not construct cls(exc_type, exc_msg, ...)', flaw, fs.node)
+    rep.check('R20.d', fkey(fs_, 'return'), ok, 'from_string has a reachable return of a parsed object' if ok else
+              'from_string cannot return normally', flaw, fs_.node)
     init = flaw.func('_ParsedTB.__init__')
     ps = init.params()
+    if len(ps) < 3:
+        raise AnalysisError('_ParsedTB.__init__ has fewer than two fields')
+    cls_name = fs_.params()[0] if fs_.params() else 'cls'
+    ctor = [c for c in walk_body(fs_.node) if isinstance(c, ast.Call) and isinstance(c.func, ast.Name) and c.func.id in (cls_name, PARSER_CLASS)]
+    if not ctor:
+        raise AnalysisError('from_string: construction of the parsed object not found')
+    verdicts = []
+    for c in ctor:
+        a0, a1 = argn(c, ps[1], 0), argn(c, ps[2], 1)
+        s0, s1 = _partition_side(fs_, a0), _partition_side(fs_, a1)
+        if s0 is None or s1 is None:
+            # not traceable to the partition: fall back on the conventional local names
+            if norm(a0) == 'exc_type' and norm(a1) == 'exc_msg':
+                verdicts.append(True)
+            elif norm(a0) == 'exc_msg' and norm(a1) == 'exc_type':
+                verdicts.append(False)
+            else:
+                raise AnalysisError('from_string: cannot tell which of %s / %s is the exception type' % (short(a0, 30), short(a1, 30)))
+        else:
+            verdicts.append(s0 == 0 and s1 == 2)
+    ok = all(verdicts)
+    rep.check('R20.d', fkey(fs_, 'cls(exc_type, exc_msg, ...)'), ok,
+              'parsed type and message are passed in constructor order' if ok else
+              'from_string does not construct cls(exc_type, exc_msg, ...)', flaw, fs_.node)
     asg = dict((norm(s.targets[0]), norm(s.value)) for s in stmts_of(init.node) if isinstance(s, ast.Assign))
-    ok = len(ps) >= 3 and asg.get('self.exc_type') == ps[1] and asg.get('self.exc_msg') == ps[2]
+    ok = asg.get('self.exc_type') == ps[1] and asg.get('self.exc_msg') == ps[2]
     rep.check('R20.d', fkey(init, 'fields'), ok, 'constructor stores type and message in the matching fields' if ok else
               'constructor cross-wires exc_type / exc_msg: %r' % asg, flaw, init.node)
+
+
+def run(rep):
+    repo = rep.repo
+    rep.decide('R20.a names resolve; R20.b parser cannot prevent the page, route/template/resource agreement; '
+               'R20.c template auto-escapes every reference; R20.d parsed branch reachable and fed')
+    rep.decline('totality over non-text inputs (bytes/None through ashes); coverage of traceback grammars')
+    rep.assume('ashes 19.2.0 filter semantics as read from the pinned source (apply_filters)')
+    fs = _Failsafe(repo)
+    repo.mod('clastic.server')
+
+    _group(rep, _names_resolve, rep, fs)
+    rep.rule('R20.b', 'parsing is under a catch-all handler; routes share endpoint and template; resources = endpoint params')
+    _group(rep, _parser_contained, rep, fs)
+    _group(rep, _routes_agree, rep, fs)
+    _group(rep, _static_nonbreaking, rep, fs)
+    _group(rep, _file_lists_kept, rep, fs)
+    _group(rep, _shown_is_given, rep, fs)
+    _group(rep, _template_escapes, rep, fs)
+    _group(rep, _parsed_branch, rep, fs)
